@@ -77,6 +77,17 @@ class Unpick:
         raise TypeError('element %d cannot be pickled' % self.i)
 
 
+class Sulky:
+    """a perfectly good (picklable) stream element that cannot be printed: nothing but a debugger has a reason to call repr() on it"""
+    def __init__(self, i):
+        self.i = i
+
+    def __repr__(self):
+        raise RuntimeError('repr() of a stream element was called')
+
+    __str__ = __repr__
+
+
 EXC_TYPES = [ValueError, KeyError, RuntimeError, ZeroDivisionError, CustomExc]
 # raised by the wrapped FUNCTION only (a source that raises StopIteration simply ends): inside the stream generator
 # PEP 479 turns a StopIteration that reaches the generator body into RuntimeError with the original as __cause__
@@ -149,7 +160,7 @@ def identify(v, kw):
 
 
 def index_of(x):
-    return x.i if isinstance(x, Unpick) else x
+    return x.i if isinstance(x, (Unpick, Sulky)) else x
 
 
 def _apply(x, kw, table=None):
@@ -285,6 +296,7 @@ class Src:
         self.calls = 0
         self.resume = resume
         self.raised = False
+        self.sulky = False
 
     def __iter__(self):
         return self
@@ -302,7 +314,9 @@ class Src:
             raise StopIteration
         i = self.i
         self.i += 1
-        return Unpick(i) if i in self.pe else i
+        if i in self.pe:
+            return Unpick(i)
+        return Sulky(i) if self.sulky else i
 
 
 class SrcHint(Src):
@@ -321,8 +335,20 @@ def make_src(case, n, tail, pe):
     if case.get('hint'):
         src = SrcHint(n, tail, pe, case.get('resume', 0))
         src.hint = case['hint']
-        return src
-    return Src(n, tail, pe, case.get('resume', 0))
+    else:
+        src = Src(n, tail, pe, case.get('resume', 0))
+    src.sulky = bool(case.get('unprintable_elements'))
+    if case.get('closable_source'):
+        # a source that is also a resource (a reader with close()): whether and when it is closed is the caller's business;
+        # if somebody does call close() here, it complains the way a generator with a failing `finally` does
+        cls = type('Closable' + type(src).__name__, (type(src),), {'close': _complaining_close})
+        src.__class__ = cls
+    return src
+
+
+def _complaining_close(self):
+    log('Q', self.i)
+    raise CustomExc(424242, 'the source was closed by the stage')
 
 
 class NotAnIterator:
